@@ -51,6 +51,9 @@ def gen_extreme(rng):
 
 
 def run(ctx, res):
+    if getattr(ctx, "replay", None):
+        nnm.run_replay(ctx, res, oracle)
+        return
     genarith.regenerate(ctx.pid, "nnm", res)   # regenerated tie: lam_to_eta, eta_to_lam, optimal_comparison
     cases, cr = nnm.run_corr(ctx.pid, ctx.rng, ctx.n(600, 8000),
                              kinds=["alpha_fixed", "alpha_shrink", "alpha_optcomp", "bet_fixed", "bet_agrapa", "sprt"],
